@@ -604,7 +604,7 @@ func checkBatch(c BatchCase) error {
 		select {
 		case <-arrived[i]:
 		case <-time.After(20 * time.Second):
-			fail("request %s never reached the handler", id)
+			fail("HANG: request %s never reached the handler within 20 s", id)
 		}
 	}
 	for _, a := range c.Script {
